@@ -217,6 +217,9 @@ type listener struct {
 
 var listeners = map[string]*listener{}
 
+// OnPipe, if set, is called for every connection pair created by a dial (harness: set plans).
+var OnPipe func(client, server *TCPConn)
+
 // DialHook, if set for an address, decides what a dial to it does (harness-scripted servers).
 var DialHook = map[string]func(client, server *TCPConn) error{}
 
@@ -224,6 +227,7 @@ func init() {
 	vs.RegisterReset(func() {
 		listeners = map[string]*listener{}
 		DialHook = map[string]func(client, server *TCPConn) error{}
+		OnPipe = nil
 	})
 }
 
@@ -264,6 +268,9 @@ func dial(ctx vcontext.Context, address string) (*TCPConn, error) {
 		return nil, &net.OpError{Op: "dial", Net: "tcp", Err: ctx.Err()}
 	}
 	cl, sv := Pipe("client->"+address, address)
+	if OnPipe != nil {
+		OnPipe(cl, sv)
+	}
 	if h, ok := DialHook[address]; ok {
 		if err := h(cl, sv); err != nil {
 			return nil, err
